@@ -534,6 +534,7 @@ type execCtx struct {
 	job     *spec.Job
 	hist    *history
 	callIdx int
+	stackDepth int
 }
 
 func groupCfg(job *spec.Job, c *spec.Call, r *spec.Resolution) (simrt.GroupCfg, error) {
@@ -574,7 +575,11 @@ func prepare(ec *execCtx, c *spec.Call, a *args, g *simrt.Group, mon *recMon) (b
 				ec.hist.current = -1
 			}()
 		}
-		layout = autog.Layout(a.src, a.opts...)
+		if ec.stackDepth > 0 {
+			deepCall(ec.stackDepth, func() { layout = autog.Layout(a.src, a.opts...) })
+		} else {
+			layout = autog.Layout(a.src, a.opts...)
+		}
 		returned = true
 	}
 	finish = func(t *simrt.Task) spec.Outcome {
@@ -684,7 +689,19 @@ func prepare(ec *execCtx, c *spec.Call, a *args, g *simrt.Group, mon *recMon) (b
 	return
 }
 
+// deepCall runs f at the bottom of a recursion of n frames.
+//
+//go:noinline
+func deepCall(n int, f func()) int {
+	if n <= 0 {
+		f()
+		return 0
+	}
+	return deepCall(n-1, f) + 1 // not a tail call: the frame stays
+}
+
 func runOne(ec *execCtx, c *spec.Call, a *args, r *spec.Resolution, mon *recMon) spec.Outcome {
+	ec.stackDepth = r.StackDepth
 	cfg, err := groupCfg(ec.job, c, r)
 	if err != nil {
 		return spec.Outcome{Verdict: "HARNESS", Detail: err.Error()}
